@@ -22,8 +22,11 @@ Case (one line of key=value tokens):
  block= 1: the function blocks its thread until a heartbeat task on the loop has made progress (asynchronous only)
  doc=   1/0: the function has a docstring
  cancel= 1 (async functions only: wasync_a, traced_a): the function suspends on a gate and its task is cancelled there
+ spawn= 1 (wrap_async / traced, inside an async scope): the function starts a task through ctx.spawn that is still blocked
+        on a gate when the function returns
  recv=  (form=meth) receivers of successive calls, joined by ',', the last one is the observed call; a the instance,
-        c a copy.copy of it made at that moment, b another instance, s an instance of a subclass whose override calls super()
+        c a copy.copy of it made at that moment, b another instance, s an instance of a subclass whose override calls super(),
+        e a distinct instance that is == and hash-equal to a
 
 Observation: <out>|<bind>|<seen>|<after>|<where>|<records>|<meta>|<recv>
  recv    the object each call's body saw as `self` (a/c/b/s, ? unknown), then `;ovr=<times the subclass override ran>`; '-' for functions
@@ -32,7 +35,9 @@ Observation: <out>|<bind>|<seen>|<after>|<where>|<records>|<meta>
  out     r:<value>:<1 if it is the very object the function returned> | e:<Class>:<message>:<1 same object|- not raised by the body>
  bind    the arguments as the function's body saw them, or '-' when the body never ran
  seen    <A value|dflt|MC>/<scope label|-> inside the function      after   the same for the caller after the call
- where   other | loop (thread the body ran on), ',beat' / ',nobeat' when block=1
+ where   other | loop (thread the body ran on), ',beat' / ',nobeat' when block=1; with spawn=1 ';pending' (the spawned
+         task was still running when the call returned) or ';blocked' (the call only returned after a watchdog released the
+         task) and ';joined' / ';detached' (all spawned tasks were done when the caller's innermost async scope was left)
  records A=<positional>;<keyword> R=<result> M=<recorded ks, merged over root> own=<ks recorded in the innermost
          call-site scope itself> – read in the completion callbacks; '-' without root
  meta    three bits: __name__, __doc__, __wrapped__ are the original's
@@ -111,9 +116,12 @@ class BaseBoom(BaseException):
 
 def parse(case: str) -> dict:
     d = dict(tok.split("=", 1) for tok in case.split())
-    for k in ("deco", "form", "root", "site", "sig", "pos", "kw", "out", "leak", "rec", "block", "doc", "cancel", "recv"):
+    for k in ("deco", "form", "root", "site", "sig", "pos", "kw", "out", "leak", "rec", "block", "doc", "cancel", "recv", "spawn"):
         d.setdefault(k, {"deco": "asyn", "form": "fn", "root": "1", "site": "-", "sig": "0", "pos": "-", "kw": "-",
-                         "out": "r:i1", "leak": "0", "rec": "0", "block": "0", "doc": "1", "cancel": "0", "recv": "a"}[k])
+                         "out": "r:i1", "leak": "0", "rec": "0", "block": "0", "doc": "1", "cancel": "0", "recv": "a", "spawn": "0"}[k])
+    in_async = d["root"] == "1" or any(b.startswith("a") for b in d["site"].split("."))
+    if not (d["deco"].startswith(("wasync", "traced")) and in_async) or d["cancel"] == "1":
+        d["spawn"] = "0"
     if d["deco"] not in ("wasync_a", "traced_a"):
         d["cancel"] = "0"
     if d["form"] != "meth":
@@ -244,6 +252,8 @@ class Env:
         self.overrides = 0
         self.suspended = False
         self.cancel_gate = None
+        self.spawn_gate = loop.create_future() if loop is not None else None
+        self.spawned: list = []
         out = d["out"]
         self.result_obj = self.values.make(out[2:]) if out.startswith("r:") else None
         self.exc_obj = make_exc(out[2:]) if out.startswith("e:") else None
@@ -304,6 +314,13 @@ class Env:
                 pass
         if self.d["block"] == "1":
             self.beat_seen = "beat" if self.gate.wait(2.0) else "nobeat"
+        if self.d.get("spawn") == "1" and self.spawn_gate is not None:
+            gate = self.spawn_gate
+
+            async def child():
+                await gate
+
+            self.spawned.append(self.ctx.spawn(child))
 
     def finish(self):
         if self.exc_obj is not None:
@@ -368,7 +385,13 @@ def build(env: Env, d: dict):
         fn = env.make_function(is_async, False, "f")
         return fn, decorate(env, deco, fn), None
     fn = env.make_function(is_async, True, "m")
-    Holder = type("Holder", (), {"m": decorate(env, deco, fn), "_is_holder": True})
+    def h_init(self, key=0):
+        self.key = key
+
+    # value equality on `key`: distinct instances may be == and hash-equal (identity is not part of equality)
+    Holder = type("Holder", (), {"m": decorate(env, deco, fn), "_is_holder": True, "__init__": h_init,
+                                 "__eq__": lambda self, other: isinstance(other, Holder) and self.key == other.key,
+                                 "__hash__": lambda self: hash(self.key)})
     obj = Holder()
     env.holder_cls = Holder
     env.receivers[id(obj)] = "a"
@@ -386,7 +409,9 @@ def receiver_for(env: Env, tok: str, a):
     if tok == "c":
         o = copy.copy(a)          # made now: after whatever calls `a` has already served
     elif tok == "b":
-        o = env.holder_cls()
+        o = env.holder_cls(1)
+    elif tok == "e":
+        o = env.holder_cls(a.key)     # equal to `a`, same hash, another object
     else:
         if getattr(env, "sub_obj", None) is None:
             def m(self, *args, **kwargs):
@@ -394,7 +419,7 @@ def receiver_for(env: Env, tok: str, a):
                 return super(Sub, self).m(*args, **kwargs)
 
             Sub = type("Sub", (env.holder_cls,), {"m": m})
-            env.sub_obj = Sub()
+            env.sub_obj = Sub(2)
         o = env.sub_obj
     env.values.keep.append(o)
     env.receivers[id(o)] = tok
@@ -490,7 +515,13 @@ def run_real(case: str) -> str:
                 cells["own"] = "X" + type(e).__name__
 
         site = [] if d["site"] == "-" else d["site"].split(".")
-        state = {"out": "hang", "after": "-"}
+        state = {"out": "hang", "after": "-", "returned": False, "spawn": "-", "joined": "-"}
+        last_async = max((j for j, blk in enumerate([] if d["site"] == "-" else d["site"].split(".")) if blk[0] == "a"),
+                         default=-1)
+
+        def note_joined():
+            state["joined"] = "joined" if all(t.done() for t in env.spawned) else "detached"
+
 
         async def heartbeat():
             n = 0
@@ -518,7 +549,28 @@ def run_real(case: str) -> str:
             except BaseException as e:  # noqa: BLE001
                 return None, e
 
+        async def watchdog():
+            """a wrapper that holds the call until the spawned task ends would hang the case: release the task then"""
+            for _ in range(300):
+                if state["returned"]:
+                    return
+                await asyncio.sleep(0)
+            state["spawn"] = "blocked"
+            if not env.spawn_gate.done():
+                env.spawn_gate.set_result(None)
+
         async def invoke():
+            wd = loop.create_task(watchdog()) if d["spawn"] == "1" else None
+            await invoke_calls()
+            state["returned"] = True
+            if wd is not None:
+                if state["spawn"] != "blocked":
+                    state["spawn"] = "pending" if env.spawned and not any(t.done() for t in env.spawned) else "finished"
+                if not env.spawn_gate.done():
+                    env.spawn_gate.set_result(None)   # from here on the tasks can end: their scope has to wait for them
+                await wd
+
+        async def invoke_calls():
             fn_target = target
             if d["form"] == "meth":
                 steps = d["recv"].split(",")
@@ -543,6 +595,8 @@ def run_real(case: str) -> str:
             if k == "a":
                 async with ctx.scope(f"c{i}", *st, completion=cb):
                     await at_site(i + 1)
+                if i == last_async:
+                    note_joined()
             elif k == "w":
                 with ctx.scope(f"c{i}", *st, completion=cb):
                     await at_site(i + 1)
@@ -554,6 +608,8 @@ def run_real(case: str) -> str:
             if d["root"] == "1":
                 async with ctx.scope("root", completion=root_done):
                     await at_site(0)
+                if last_async == -1:
+                    note_joined()
             else:
                 await at_site(0)
             for _ in range(3):
@@ -561,6 +617,8 @@ def run_real(case: str) -> str:
 
         loop.run_until_complete(main())
         where = env.where + ("," + env.beat_seen if d["block"] == "1" and env.bind != "-" else "")
+        if d["spawn"] == "1" and env.bind != "-":
+            where += f";{state['spawn']};{state['joined']}"
         records = "-" if d["root"] != "1" else f"{cells['root']} own={cells['own']}"
         recv = "-" if d["form"] == "fn" else f"{','.join(env.recv_seen)};ovr={env.overrides}"
         return (f"{state['out']}|{env.bind}|{env.seen}|{state['after']}|{where}|{records.replace(' ', '~')}|{meta}|"
@@ -585,7 +643,7 @@ def run_real(case: str) -> str:
 def direct_reference(d: dict) -> tuple[str, str]:
     import contextvars
 
-    d2 = dict(d, block="0", leak="0", rec="0")
+    d2 = dict(d, block="0", leak="0", rec="0", spawn="0")
     env = Env(d2, None, _Capture())
     method = d["form"] != "fn"
     fn = env.make_function(d["deco"] in IS_ASYNC, method, "m" if method else "f")
@@ -624,7 +682,8 @@ def model_input(case: str, real_out: str) -> str:
         out, bind = direct_reference(d)
     except Exception:  # noqa: BLE001
         return case
-    return f"{case} dout={out} dbind={bind}"
+    # the normalised switches first (the driver takes the first occurrence of a key)
+    return f"spawn={d['spawn']} cancel={d['cancel']} recv={d['recv']} {case} dout={out} dbind={bind}"
 
 
 # ------------------------------------------------------------------------------------------------
@@ -720,6 +779,13 @@ def monitor(case: str, out: str) -> list[str]:
         want = (",".join(steps) if dbind != "-" else "") + f";ovr={steps.count('s')}"
         if o_recv != want:
             fails.append("wrap.transparent.receiver")
+    if d["spawn"] == "1" and o_bind != "-":
+        # the task the function spawned belongs to the caller's scope: the call returns while it still runs, and the
+        # caller's innermost async scope waits for it
+        if ";pending" not in o_where:
+            fails.append("wrap.spawn.held-by-wrapper")
+        if not o_where.endswith(";joined"):
+            fails.append("wrap.spawn.not-in-callers-scope")
     if is_traced and d["root"] == "1":
         want_r = ":".join(dout.split(":")[:2])
         got = dict(p.split("=", 1) for p in o_rec.split("~") if "=" in p)
@@ -805,8 +871,10 @@ def gen_case(rng, deco=None) -> str:
     extra = ""
     if deco in ("wasync_a", "traced_a") and rng.random() < 0.25:
         extra += " cancel=1"
+    elif deco.startswith(("wasync", "traced")) and rng.random() < 0.2:
+        extra += " spawn=1"
     if form == "meth" and rng.random() < 0.5:
-        extra += " recv=" + ",".join(rng.choice("aacbs") for _ in range(rng.randint(2, 4)))
+        extra += " recv=" + ",".join(rng.choice("aacbse") for _ in range(rng.randint(2, 4)))
     return (f"deco={deco} form={form} root={root} site={'.'.join(site) or '-'} sig={sig} pos={','.join(pos) or '-'} "
             f"kw={','.join(f'{k}:{v}' for k, v in kw.items()) or '-'} out={out} leak={leak} rec={rec} block={block} "
             f"doc={rng.choice('1110')}{extra}")
@@ -858,6 +926,13 @@ def corpus():
         f"deco=asyn form=meth {base} recv=s,s,s",
         f"deco=traced_a form=meth {base} recv=a,s,c,s",
         f"deco=wasync_s form=meth {base} recv=c,a,s,s",
+        f"deco=asyn form=meth {base} recv=a,e",            # equal, hash-equal, but another object
+        f"deco=asyn_ex form=meth {base} recv=e,a,e",
+        # a task spawned by the function belongs to the caller's scope, not to the wrapper
+        f"deco=traced_a form=fn {base} spawn=1",
+        f"deco=traced_s form=meth {base} spawn=1",
+        f"deco=wasync_a form=fn {base} spawn=1",
+        "deco=wasync_s form=fn root=1 site=a1.w2.a3.u4 sig=1 pos=- kw=- out=e:V spawn=1",
     ] + [f"deco={m} form={f} doc={dc}" for m in DECOS_META for f in ("fn", "meth") for dc in "10"]
 
 
@@ -893,7 +968,7 @@ def classify(case: str, out: str):
     if len(parts) == 8:
         yield ("outcome:" + ":".join(parts[0].split(":")[:2])) if parts[0].startswith("e:") else "outcome:value"
         yield "body:" + ("ran" if parts[1] != "-" else "not-bound")
-    for k in ("leak", "rec", "block"):
+    for k in ("leak", "rec", "block", "spawn"):
         if d[k] != "0":
             yield k
 
@@ -912,13 +987,13 @@ def mutate(rng, case: str) -> str:
     else:
         d["leak"], d["rec"] = rng.choice(["0", "9"]), rng.choice(["0", "4"])
     if d["form"] == "meth" and rng.random() < 0.4:
-        d["recv"] = ",".join(rng.choice("acbs") for _ in range(rng.randint(1, 4)))
+        d["recv"] = ",".join(rng.choice("acbse") for _ in range(rng.randint(1, 4)))
     return " ".join(f"{k}={v}" for k, v in d.items())
 
 
 def shrink(case: str):
     d = parse(case)
-    simpler = {"site": "-", "leak": "0", "rec": "0", "block": "0", "kw": "-", "pos": "-", "out": "r:i1", "form": "fn",
+    simpler = {"spawn": "0", "site": "-", "leak": "0", "rec": "0", "block": "0", "kw": "-", "pos": "-", "out": "r:i1", "form": "fn",
                "sig": "0", "doc": "1", "cancel": "0", "recv": "a"}
     if d["recv"] != "a":
         steps = d["recv"].split(",")
